@@ -406,8 +406,18 @@ def r3_parse_sites(chk, prog):
     """every Signed<_> parsed in lib.rs from untrusted bytes passes verify_role before it escapes"""
     n_trusted = n_ref = 0
     nverify = 0
-    for fn in ["tough::load_root", "tough::load_timestamp", "tough::load_snapshot", "tough::load_targets",
-               "tough::load_delegations"]:
+    fns = ["tough::load_root", "tough::load_timestamp", "tough::load_snapshot", "tough::load_targets",
+           "tough::load_delegations"]
+    # a loader may keep its rollback check (stored read + verification + comparison) in a helper
+    from .c03 import rollback_site, LOADERS as _LOADERS
+    for lf, lname in _LOADERS:
+        lc = async_body(prog, lf)
+        st = rollback_site(prog, lc, lname) if lc is not None else None
+        if st is not None and st[1] is not None:
+            hp = short_fn(st[0].body.path)
+            if hp not in fns:
+                fns.append(hp)
+    for fn in fns:
         ctx = async_body(prog, fn)
         if ctx is None:
             chk.anchor_missing("R3", fn)
